@@ -2,7 +2,7 @@
    both generic wire values (Base/Sx.v).  A request is (op arg ...). *)
 From Coq Require Import ZArith List Bool.
 From Mistletoe Require Import Base.Sx Base.PyStr Model.SpanTokenizer Model.Tree Model.TreeWire
-  Model.HtmlRenderer Spec.HtmlSpec Model.LatexRenderer Spec.LatexSpec Model.Contrib Model.DocLines Model.MarkdownRenderer Re.ReMatch Gen.GenRegex Gen.GenConfig Model.CoreTokens Model.Inline Model.Unescape Model.Block Model.Build Model.Parser Spec.Delims.
+  Model.HtmlRenderer Spec.HtmlSpec Model.LatexRenderer Spec.LatexSpec Model.Contrib Model.DocLines Model.MarkdownRenderer Re.ReMatch Gen.GenRegex Gen.GenConfig Model.CoreTokens Model.Inline Model.Unescape Model.Block Model.Build Model.Parser Spec.Delims Model.Traverse Proofs.Shape.
 Import ListNotations.
 Local Open Scope Z_scope.
 
@@ -153,6 +153,23 @@ Definition op_markdown_html (req : sx) : sx :=
 (* ---- C06 : (60 text) -> specification algorithm's rendering ---- *)
 Definition op_spec_emph (req : sx) : sx := sx_of_str (spec_emphasis (str_of_sx (sx_nth req 1))).
 
+(* ---- C12 : (12 utree (allowed labels)|() (limit)|() include) ; (120 tree) -> wf_shape ---- *)
+Fixpoint utree_of_sx (x : sx) : utree :=
+  match x with
+  | SxL [SxZ l; SxL ch] => UT l (map utree_of_sx ch)
+  | _ => UT 0 []
+  end.
+Definition op_traverse (req : sx) : sx :=
+  let t := utree_of_sx (sx_nth req 1) in
+  let keep := match sx_nth req 2 with
+              | SxL [SxL labels] => fun u => existsb (Z.eqb (ulabel u)) (map z_of_sx labels)
+              | _ => fun _ => true
+              end in
+  let limit := match sx_nth req 3 with SxL [SxZ z] => Some (Z.to_nat z) | _ => None end in
+  SxL (map (fun x => SxL [SxL (map (fun i => SxZ (Z.of_nat i)) (rev (fst (fst x)))); SxZ (ulabel (snd (fst x))); SxZ (Z.of_nat (snd x))])
+           (traverse t keep limit (bool_of_sx (sx_nth req 4)))).
+Definition op_wf_shape (req : sx) : sx := sx_of_bool (wf_shape (tok_of_sx (sx_nth req 1))).
+
 Definition dispatch (req : sx) : sx :=
   match z_of_sx (sx_nth req 0) with
   | 16 => op_tokenize req
@@ -161,6 +178,8 @@ Definition dispatch (req : sx) : sx :=
   | 81 => op_check_html req
   | 17 => op_latex req
   | 30 => op_re req
+  | 12 => op_traverse req
+  | 120 => op_wf_shape req
   | 60 => op_spec_emph req
   | 40 => op_doc req
   | 41 => op_markdown_html req
